@@ -637,7 +637,7 @@ ERRORS_DROPPED_REVIEWED = {
 def errors_not_dropped(ctx, crates):
     """an error that occurred is visible in the exit code only if it is not thrown away on the way: no code of the tool turns a `Result`
     into "nothing" — `.flatten()` / `.flat_map(..)` over Results (an Err yields no element, and with fancy_regex's capture iterator,
-    which repeats its error, never ends), `.ok()` on a Result with an error payload, `filter_map(Result::ok)` — outside the reviewed
+    which repeats its error, never ends), `.ok()` on a Result carrying the tool's own Error, `filter_map(Result::ok)` — outside the reviewed
     places (regex constants in lazy_static initialisers; unreadable directory entries in walk_dir)."""
     rule = "R-C06-errors-not-dropped"
     n_fns = 0
@@ -660,8 +660,10 @@ def errors_not_dropped(ctx, crates):
                         what = d.split("::")[-1] + " over Results"
                     elif d.endswith("filter_map") and any("Result<" in g and "ok" in g for g in ga):
                         what = "filter_map(Result::ok)"
-                elif p == "std::result::Result::ok" and len(ga) == 2 and ga[1] not in ("()", "std::convert::Infallible"):
-                    what = "ok() on Result<_, %s>" % ga[1].split("::")[-1]
+                elif p == "std::result::Result::ok" and len(ga) == 2 and ga[1].endswith("rules::errors::Error"):
+                    # the tool's own error type: an evaluation / parse / read failure the caller was meant to see (probing calls into the
+                    # OS or a library, `metadata().ok()`, are the same as the `if let Ok(..)` they abbreviate and are not counted)
+                    what = "ok() on Result<_, %s>" % ga[1]
                 if what:
                     hits.setdefault(owner, []).append("%s (l.%s)" % (what, t.get("ln")))
         for owner, hs in sorted(hits.items()):
